@@ -169,6 +169,6 @@ func shortFile(s string) string {
 	return s[i+1:]
 }
 
-func cmdCheck(args []string) { fmt.Println("not yet") }
+
 
 var _ = ssa.InstantiateGenerics
